@@ -384,6 +384,9 @@ func init() {
 			identLaws(env, g)
 			g.waves(env, "C16", true, nil, nil, true)
 			g.Static = append(g.Static, boundedC16Profiles(env))
+			// a record the reader drops gets no rule at all: the record grammar of the C14
+			// stand-in (which records GetApparmorLogs keeps) is run here as well
+			g.Static = append(g.Static, boundedC14Filter(env))
 			// every record of the list goes through AddRule exactly once (SSA shape obligation)
 			if fn := env.Prog.Func("pkg/logs", "(AppArmorLogs).ParseToProfiles"); fn != nil {
 				g.addFunc(env, fn)
